@@ -252,7 +252,11 @@ def build_world(nregions: int, vo_entries, settings: Optional[Dict[str, Any]] = 
 
     def _for_region(handle, cache_id, cache_dir=None):
         idx = HANDLES.index(handle)
-        return RegionViewerObjectCacheChain([RegionViewerObjectCache(cache_id, list(vo_entries(idx)))])
+        entries = list(vo_entries(idx))
+        if entries and isinstance(entries[0], (list, tuple)):
+            # a chain of several per-viewer caches for this region (same CacheID), in lookup order
+            return RegionViewerObjectCacheChain([RegionViewerObjectCache(cache_id, list(e)) for e in entries])
+        return RegionViewerObjectCacheChain([RegionViewerObjectCache(cache_id, entries)])
 
     vocache_mod.RegionViewerObjectCacheChain.for_region = staticmethod(_for_region)
     for region in lw.regions:
